@@ -3,6 +3,21 @@ TRUST = ("trusted: CPython ast; the checker's own engines; for table rules the i
          "against the real loaders at development time). Known findings are listed in KNOWN_FINDINGS.txt. ")
 
 META = {
+    "C12": {
+        "engine": "sa: call graph, raise-set analysis, effect analysis of file opens, table model",
+        "technique": "inter-procedural raise-set analysis of every handler in reachable code; who-may-open-for-writing "
+                     "and position-dominance of the single writer of the output path; must-pass checks; exhaustive "
+                     "default-state cell table as necessary condition for the success side",
+        "text": "failure side: the only writer of the output PQR path is print_pqr, called once, unconditionally, after "
+                "every arm has produced its result and with nothing but write/log inside the open block; every handler "
+                "in code reachable from main_driver is classified by the explicit raises that can arrive at it, and one "
+                "that catches a pipeline error must re-raise on every path (3 reviewed exceptions with reasons); argument "
+                "and file checks precede all work; the eight failure signals exist, are reachable and arrive at the top; an "
+                "atom-less structure fails before any output. Success side: ONLY the necessary condition that every "
+                "default-state (and option-selected) cell is full and integral wherever the force field defines the "
+                "residue class; geometry-dependent success is not decided.",
+        "note": TRUST + "Success on all well-formed structures is explicitly not claimed.",
+    },
     "C09": {
         "engine": "sa: call graph, information-flow classification, effect summaries, table model",
         "technique": "non-interference by use classification: every read (and local alias) of a formatting option is "
